@@ -968,6 +968,54 @@ pub mod viewfx {
     }
 }
 
+// ---------------------------------------------------------------- R-LOCKSPLIT / R-CLEAR
+pub mod locksplit {
+    use std::sync::Mutex;
+    pub struct Lazy {
+        pub init: Mutex<bool>,
+        pub cell: std::cell::UnsafeCell<u64>,
+    }
+    impl Lazy {
+        pub fn ok_ensure(&self) {
+            let mut done = self.init.lock().unwrap();
+            if !*done {
+                unsafe { *self.cell.get() = 7 };
+                *done = true;
+            }
+        }
+        pub fn bad_ensure(&self) {
+            let done = *self.init.lock().unwrap();
+            if !done {
+                unsafe { *self.cell.get() = 7 };
+                *self.init.lock().unwrap() = true;
+            }
+        }
+    }
+    pub struct Slots {
+        pub entries: Vec<u32>,
+        pub free: Vec<usize>,
+        pub free_count: usize,
+    }
+    pub struct BadSlots {
+        pub entries: Vec<u32>,
+        pub free: Vec<usize>,
+        pub free_count: usize,
+    }
+    impl Slots {
+        pub fn clear(&mut self) {
+            self.entries.clear();
+            self.free.clear();
+            self.free_count = 0;
+        }
+    }
+    impl BadSlots {
+        pub fn clear(&mut self) {
+            self.entries.clear();
+            self.free_count = 0;
+        }
+    }
+}
+
 // ---------------------------------------------------------------- R-VARIANT
 pub mod variant {
     pub enum Storage {
